@@ -1,5 +1,6 @@
 mod mathgen;
 mod mathops;
+mod rnggen;
 mod util;
 
 fn main() {
@@ -13,6 +14,11 @@ fn main() {
             let lo: i64 = a.get(4).and_then(|s| s.parse().ok()).unwrap_or(0);
             let hi: i64 = a.get(5).and_then(|s| s.parse().ok()).unwrap_or(1000);
             mathgen::emit(seed, n, lo, hi)
+        }
+        "rng" => {
+            let len: usize = a.get(4).and_then(|s| s.parse().ok()).unwrap_or(1300);
+            let nraw: usize = a.get(5).and_then(|s| s.parse().ok()).unwrap_or(1500);
+            rnggen::emit(seed, n, len, nraw)
         }
         "mathone" => {
             let op: i64 = a[2].parse().unwrap();
